@@ -103,7 +103,7 @@ class CreateGroupsNotificationProtocolEntity(GroupsNotificationProtocolEntity):
             "subject": self.getSubject(),
             "creation": str(self.getCreationTimestamp()),
             "creator": self.getCreatorJid(),
-            "s_t": self.getSubjectTimestamp(),
+            "s_t": str(self.getSubjectTimestamp()),
             "s_o": self.getSubjectOwnerJid(),
             "id": self.getGroupId()
         })
